@@ -287,6 +287,77 @@ def main():
                           'unused-bits byte and all point bytes always arbitrary; 33- and 65-byte points' % ('two' if chk.thorough else 'one'))
         chk.outside.append('SPKI inputs that differ from a valid header in more than %d header bytes simultaneously' % (2 if chk.thorough else 1))
 
+    # ---------------------------------------------------------------- builders: real cryptobyte.Builder, math/big stubbed
+    def der_int_spec(body):
+        """minimal DER INTEGER of a non-zero big-endian magnitude whose first byte is non-zero (list of byte terms):
+        returns list of alternatives (condition, bytes)"""
+        n = len(body)
+        hi = tm.eq(tm.bv('and', body[0], 0x80, 8), 0x80, 8)
+        return [(hi, [0x02, n + 1, 0] + body), (tm.bnot(hi), [0x02, n] + body)]
+
+    def t_build(lr, ls):
+        def task(sub):
+            def h(ctx):
+                m = mk(ctx)
+                stubs_mod.install_bigint(m)
+                rb, sb = sym_bytes('r', lr), sym_bytes('s', ls)
+                for b in (rb, sb):
+                    ctx.assume(tm.bnot(tm.eq(b[0], 0, 8)))          # byte-length class: exactly lr / ls significant bytes
+                R, Sv = tm.lift(cat_bytes([0] * (32 - lr) + rb), 256), tm.lift(cat_bytes([0] * (32 - ls) + sb), 256)
+                ctx.assume(tm.ult(R, N_ORDER, 256))
+                ctx.assume(tm.ult(Sv, N_ORDER, 256))
+                ro = X.Ptr(m.new_obj(None, tree=[[], models.split_limbs(R)], label='r'), ())
+                so = X.Ptr(m.new_obj(None, tree=[[], models.split_limbs(Sv)], label='s'), ())
+                out = m.call(SECEC + 'BuildASN1Signature', [ro, so])
+                sub.note_machine(m)
+                ob = m.slice_elems(out)
+                # specification: 30 len INTEGER(r) INTEGER(s), minimal
+                alts = []
+                for cr, er in der_int_spec(rb):
+                    for cs, es in der_int_spec(sb):
+                        body = er + es
+                        want = [0x30, len(body)] + body
+                        if len(want) == len(ob):
+                            alts.append(tm.band_all([cr, cs, tm.eq(cat_bytes(ob), cat_bytes(want), 8 * len(ob))]))
+                ctx.check(tm.bor_all(alts), 'bv:bytes=strict-DER(SEQUENCE{INTEGER r, INTEGER s})')
+                # parse(build(r,s)) = (r,s)
+                r2, s2, err = m.call(SECEC + 'ParseASN1Signature', [out])
+                ctx.check(err is None, 'built-signature-parses')
+                if err is None:
+                    ctx.check(tm.band(tm.eq(scalar_value(m, r2), R, 256), tm.eq(scalar_value(m, s2), Sv, 256)), 'bv:parse(build(r,s))=(r,s)')
+                return 'ok'
+            sub.explore('build/BuildASN1Signature@rlen%d@slen%d' % (lr, ls), h, mode='bv')
+        return task
+    if not only or 'build' in only:
+        from . import stubs as stubs_mod
+        classes = [(1, 1), (32, 32), (32, 1), (1, 32), (17, 5), (31, 32)] if not chk.thorough else [(a, b) for a in (1, 2, 16, 31, 32) for b in (1, 2, 16, 31, 32)]
+        for lr, ls in classes:
+            tasks.append(('build', t_build(lr, ls)))
+
+        def t_build_compact(sub):
+            def h(ctx):
+                m = mk(ctx)
+                from .common import sym_limbs
+                rl, sl = sym_limbs('r'), sym_limbs('s')
+                R, Sv = tm.lift(cat_limbs(rl), 256), tm.lift(cat_limbs(sl), 256)
+                for v in (R, Sv):
+                    ctx.assume(tm.band(tm.bnot(tm.eq(v, 0, 256)), tm.ult(v, N_ORDER, 256)))
+                ro = X.Ptr(m.new_obj(None, tree=[[], list(rl)], label='r'), ())
+                so = X.Ptr(m.new_obj(None, tree=[[], list(sl)], label='s'), ())
+                vv = tm.var('v', 8)
+                o1 = m.slice_elems(m.call(SECEC + 'BuildCompactSignature', [ro, so]))
+                o2 = m.slice_elems(m.call(SECEC + 'BuildCompactRecoverableSignature', [ro, so, vv]))
+                ctx.check(len(o1) == 64 and tm.eq(cat_bytes(o1), tm.concat(R, Sv, 256), 512), 'bv:compact=r||s')
+                ctx.check(len(o2) == 65 and tm.eq(cat_bytes(o2), tm.concat(tm.concat(R, Sv, 256), vv, 8), 520), 'bv:compact-recoverable=r||s||v')
+                r2, s2, v2, err = m.call(SECEC + 'ParseCompactRecoverableSignature', [m.new_byte_slice(o2, 'sig')])
+                ctx.check(err is None and tm.band_all([tm.eq(scalar_value(m, r2), R, 256), tm.eq(scalar_value(m, s2), Sv, 256), tm.eq(v2, vv, 8)]) is not False, 'bv:parse(build)=identity')
+                sub.note_machine(m)
+            sub.explore('build/compact', h, mode='bv')
+        tasks.append(('build-compact', t_build_compact))
+        chk.bounds.append('BuildASN1Signature (real cryptobyte.Builder executed; math/big = unsigned big-endian value): byte-length classes %s of (r,s), all values; '
+                          'compact builders: all (r,s,v)' % (classes,))
+        chk.stubs.append('math/big.Int (SetBytes/Sign/Bytes/BitLen): unsigned big-endian magnitude')
+
     chk.log('%d tasks' % len(tasks))
     chk.run_tasks(tasks)
     chk.discharge()
